@@ -31,25 +31,36 @@ Record ecase := {
   ec_url : str;                    (* u.String() *)
   ec_hostname : str;               (* the hostname argument *)
   ec_url_hostname : str;           (* u.Hostname() *)
+  ec_scope : scope;                (* what else the script declares *)
+  ec_panicked : bool;              (* NewProxyResolver panicked *)
   ec_new_ok : bool;                (* NewProxyResolver returned no error *)
   ec_res : option str              (* FindProxyForURL: Some s, None = error *)
 }.
 
-Definition observed_is (c : ecase) (r : option fpresult) : bool :=
-  match r with
-  | None => negb (ec_new_ok c)
-  | Some PacOutside => true
-  | Some PacErr => ec_new_ok c && match ec_res c with None => true | Some _ => false end
-  | Some (PacOk s) => ec_new_ok c && opt_str_eqb (ec_res c) (Some s)
-  end.
+Definition bool_eqb (x y : bool) : bool := if x then y else negb y.
 
+Definition observed_is (c : ecase) (panics : bool) (r : option fpresult) : bool :=
+  bool_eqb (ec_panicked c) panics &&
+  (panics ||
+   match r with
+   | None => negb (ec_new_ok c)
+   | Some PacOutside => true
+   | Some PacErr => ec_new_ok c && match ec_res c with None => true | Some _ => false end
+   | Some (PacOk s) => ec_new_ok c && opt_str_eqb (ec_res c) (Some s)
+   end).
 Definition run_case (call : env -> helper -> list jsval -> outcome) (c : ecase) : option fpresult :=
-  find_proxy (call (ec_env c)) (ec_has_fn c) (ec_has_fnx c) (ec_tree c) (ec_url c) (ec_hostname c) (ec_url_hostname c).
+  match scope_creation (ec_scope c) (ec_tree c) with
+  | Created => find_proxy (scoped_call (ec_scope c) (call (ec_env c))) (ec_has_fn c) (ec_has_fnx c) (ec_tree c)
+                          (ec_url c) (ec_hostname c) (ec_url_hostname c)
+  | _ => None
+  end.
+Definition model_panics (c : ecase) : bool :=
+  match scope_creation (ec_scope c) (ec_tree c) with CreationPanic => true | _ => false end.
 
-Definition ecase_model_ok (c : ecase) : bool := observed_is c (run_case call_helper c).
+Definition ecase_model_ok (c : ecase) : bool := observed_is c (model_panics c) (run_case call_helper c).
 Definition run_spec (c : ecase) : option fpresult :=
-  spec_find_proxy (ec_env c) (ec_has_fn c) (ec_has_fnx c) (ec_tree c) (ec_url c) (ec_hostname c) (ec_url_hostname c).
-Definition ecase_prop_ok (c : ecase) : bool := observed_is c (run_spec c).
+  spec_find_proxy_scoped (ec_scope c) (ec_env c) (ec_has_fn c) (ec_has_fnx c) (ec_tree c) (ec_url c) (ec_hostname c) (ec_url_hostname c).
+Definition ecase_prop_ok (c : ecase) : bool := observed_is c false (run_spec c).
 Definition ecase_outside (c : ecase) : bool :=
   match run_case call_helper c, run_spec c with
   | Some PacOutside, _ | _, Some PacOutside => true
@@ -60,7 +71,7 @@ Definition ecase_outside (c : ecase) : bool :=
 Definition ecase_code (c : ecase) : N :=
   let m := run_case call_helper c in
   let s := run_spec c in
-  (if observed_is c m then 0 else 1) + (if observed_is c s then 0 else 2) +
+  (if observed_is c (model_panics c) m then 0 else 1) + (if observed_is c false s then 0 else 2) +
   (match m, s with Some PacOutside, _ | _, Some PacOutside => 4 | _, _ => 0 end).
 
 (* ---- sortIpAddressList, modulo the order of entries that compare equal ---- *)
